@@ -431,7 +431,16 @@ func one(c *vfw.Ctx, t *testing.T, sc scen) {
 		c.Violate("goroutine-leak-wedge", "library goroutines alive after Close: "+sc.String(), sc)
 		c.Abort("goroutine leak wedged the bubble")
 	}
+	e2.OnWedge = func(stacks string) {
+		c.Violate("wedged-execution:"+sc.End, "the execution made no progress for "+e2.WedgeAfter.String()+" of real time (a send or the teardown can never complete): "+sc.String()+"\n"+stacks[:min(len(stacks), 3000)], sc)
+		c.Abort("wedged execution")
+	}
+	e2.OnDeadlock = func(report string) {
+		c.Violate("deadlock:"+sc.End, "every goroutine is blocked forever while a send or the teardown is still outstanding: "+sc.String()+"\n"+report[:min(len(report), 3000)], sc)
+		c.Abort("deadlocked execution")
+	}
 	f, out := run(t, sc, onLeak)
+	e2.OnWedge, e2.OnDeadlock = nil, nil
 	c.Case(sc.Sync+sc.Async > 0 || sc.Blocked)
 	c.Graph(1, 1, 1)
 	if f != nil {
